@@ -164,6 +164,16 @@ CLAIMED.update({
     ),
 })
 
+CLAIMED.update({
+    "C10": dict(
+        technique="writer/reader agreement of the fit parameter vector (packer vs residual closure vs post-processing), path-condition comparison of closure writes against post-processing writes, order-type table of the start-value test (AST)",
+        text="The optimiser's vector is packed and unpacked with one layout at all three sites; bounds come from the parameters' own bounds; start values are kept only strictly inside their bounds; every model attribute the "
+        "residual function sets during optimisation is re-established from the optimum (or restored) afterwards under an implied condition with the variance written last; dictionary entries equal what was just written to "
+        "the model; the four sill cases keep var + nugget = sill by construction. One genuine bookkeeping defect was repaired. Recovery of parameters / optimiser behaviour is not decided.",
+        ref="DESIGN.md section 4 C10",
+    ),
+})
+
 NOT_APPLICABLE = {
     "C01": "distributional property over seeds (ensemble mean/covariance at Monte-Carlo rate); no code-shape clause beyond those decided under C04/C11/C12 - needs sampling or quadrature, a different technique family",
 }
